@@ -425,6 +425,11 @@ impl TopicCache {
 // -----------------------------------------------------------------------
 // -----------------------------------------------------------------------
 
+// Verification accessors (read-only views of private state); only with `--cfg rustdds_verif`.
+#[cfg(rustdds_verif)]
+#[path = "/verif/facade/cache_hooks.rs"]
+pub(crate) mod verif_hooks;
+
 #[cfg(test)]
 mod tests {
   use std::{
